@@ -8,6 +8,9 @@
 (*               records must equal the written ones field for field (all    *)
 (*               attribute values, value order per key), and the reference   *)
 (*               parser of Tabular.tla;                                      *)
+(* mode "rt"   : like "exact" but for records whose tokens contain double      *)
+(*               quotes (csv quoting is not part of the wire model): only     *)
+(*               parsed = written is demanded;                                *)
 (* mode "safe" : bytes were corrupted / hand-made inside the modelled        *)
 (*               alphabet (no double quote, no CR): the result must equal    *)
 (*               the reference parser line by line (Ok with these fields /   *)
@@ -30,8 +33,9 @@ VARIABLES run, idx, ok
 vars == <<run, idx, ok>>
 
 \* ----------------------------------------------------------------- gff
-ValidGffRec(dl, r) ==
-    /\ ValidTok(r.seqname) /\ ValidTok(r.source) /\ ValidTok(r.ftype) /\ ValidTok(r.score) /\ ValidTok(r.strand)
+Tok(t, q) == IF q = 1 THEN ValidTokQ(t) ELSE ValidTok(t)
+ValidGffRec(dl, r, q) ==
+    /\ Tok(r.seqname, q) /\ Tok(r.source, q) /\ Tok(r.ftype, q) /\ Tok(r.score, q) /\ Tok(r.strand, q)
     /\ (r.seqname = << >> \/ r.seqname[1] # HASH)
     /\ ValidNum(r.start) /\ ValidNum(r.end)
     /\ r.phase \in -1..2
@@ -59,10 +63,10 @@ GffRoundTrip(p, w) ==
     /\ SameMultimap(p.attrs, Flatten(w.attrs))
 
 \* ----------------------------------------------------------------- bed
-ValidBedRec(r) ==
-    /\ ValidTok(r.chrom) /\ (r.chrom = << >> \/ r.chrom[1] # HASH)
+ValidBedRec(r, q) ==
+    /\ Tok(r.chrom, q) /\ (r.chrom = << >> \/ r.chrom[1] # HASH)
     /\ ValidNum(r.start) /\ ValidNum(r.end)
-    /\ \A i \in 1..Len(r.aux) : ValidTok(r.aux[i])
+    /\ \A i \in 1..Len(r.aux) : Tok(r.aux[i], q)
 BedWritten(recs, bytes) ==
     LET ls == Split(bytes, LF) IN
     /\ Len(ls) = Len(recs) + 1 /\ ls[Len(ls)] = << >>
@@ -90,12 +94,20 @@ Explains(fam, cfg, evs, k) ==
     IN
     CASE c.op = "write" ->
            /\ r.st = "ok" /\ r.errs = 0
-           /\ IF fam = "gff" THEN \A i \in 1..Len(c.a.recs) : ValidGffRec(dl, c.a.recs[i])
-                              ELSE \A i \in 1..Len(c.a.recs) : ValidBedRec(c.a.recs[i])
+           /\ c.a.q \in {0, 1}
+           /\ IF fam = "gff" THEN \A i \in 1..Len(c.a.recs) : ValidGffRec(dl, c.a.recs[i], c.a.q)
+                              ELSE \A i \in 1..Len(c.a.recs) : ValidBedRec(c.a.recs[i], c.a.q)
       [] c.op = "read" ->
            /\ r.st = "ok"
            /\ \A i \in 1..Len(r.recs) : r.recs[i].ok \in {0, 1}
            /\ CASE c.a.mode = "wild" -> TRUE
+                [] c.a.mode = "rt" ->
+                     LET w == PrevWrite(evs, k, c.a.bytes) IN
+                     /\ w # 0
+                     /\ Len(r.recs) = Len(evs[w].c.a.recs)
+                     /\ \A i \in 1..Len(r.recs) :
+                          IF fam = "gff" THEN GffRoundTrip(r.recs[i], evs[w].c.a.recs[i])
+                                         ELSE BedRoundTrip(r.recs[i], evs[w].c.a.recs[i])
                 [] c.a.mode \in {"exact", "safe"} ->
                      LET ls == RecordLines(c.a.bytes)
                          nc == ExpectedCols(ls)
@@ -121,7 +133,8 @@ Exact(fam, cfg, evs, k) ==
         dl == IF fam = "gff" THEN Dialect(cfg.dialect) ELSE Dialect("gff3")
     IN
     CASE c.op = "write" ->
-           IF fam = "gff" THEN GffWritten(dl, c.a.recs, r.bytes) ELSE BedWritten(c.a.recs, r.bytes)
+           IF c.a.q = 1 THEN TRUE                      \* csv-quoted fields: no wire model
+           ELSE IF fam = "gff" THEN GffWritten(dl, c.a.recs, r.bytes) ELSE BedWritten(c.a.recs, r.bytes)
       [] c.op = "read" /\ fam = "gff" /\ c.a.mode \in {"exact", "safe"} ->
            LET ls == RecordLines(c.a.bytes)
                nc == ExpectedCols(ls)
